@@ -56,6 +56,12 @@ def cases():
     add("v[2] -> json_extract(v, '$[2]')", "indices_to_json_extract",
         mk(lambda o: node("Bracket", "stmt", this=op(o, "x"), expressions=Lst([lit("2", False)]))),
         lambda o, i: P("JSONExtract", this=IS(o["x"]), expression=LITERAL("$[2]", True)), "array access by zero-based index")
+    add("get_path(v['a'], 'p')[1]: a subscript below a function call below a rewritten subscript is rewritten too", "indices_to_json_extract",
+        mk(lambda o: node("Bracket", "stmt", this=anon("GET_PATH", node("Bracket", "inner", this=op(o, "x"), expressions=Lst([lit("a", True)])), lit("p", True)),
+                          expressions=Lst([lit("1", False)]))),
+        lambda o, i: P("JSONExtract", this=P("Anonymous", expressions=LIST(P("JSONExtract", this=IS(o["x"]), expression=LITERAL("$.a", True)), LITERAL("p", True))),
+                       expression=LITERAL("$[1]", True)),
+        "transform() does not visit the operands of a node it replaced: the rewrite has to walk the whole operand, not only a directly nested subscript")
     add("v[expr] (non-literal index) is left alone", "indices_to_json_extract",
         mk(lambda o: node("Bracket", "stmt", this=op(o, "x"), expressions=Lst([S("i")]))), UNCHANGED, "only literal indices are JSON paths")
     add("(v:a)::VARCHAR extracts the string (->>) under the cast", "json_extract_cast_as_varchar",
